@@ -286,7 +286,13 @@ static int do_check(const std::string& prop, int tier, uint64_t base_seed, int j
 			for (auto& h : j.at("case_hashes").a) a.case_hashes.insert((uint64_t)h.i);
 			for (auto& kv : j.at("probes").o) a.probes[kv.first] += (uint64_t)kv.second.i;
 			for (auto& kv : j.at("faults").o) a.faults[kv.first] += (uint64_t)kv.second.i;
-			if (j.has("det_checked")) { ++a.determinism_checked; if (!j.at("det_equal").b) ++a.determinism_mismatch; }
+			if (j.has("det_checked")) {
+				++a.determinism_checked;
+				if (!j.at("det_equal").b) {
+					++a.determinism_mismatch;
+					fprintf(stderr, "HARNESS: run %s #%lld (seed %llu) gave a different digest when executed twice\n", j.str("family").c_str(), (long long)j.num("index"), (unsigned long long)j.num("seed"));
+				}
+			}
 			if (j.at("harness_error").b) { a.harness_error = true; if (a.harness_msg.empty()) a.harness_msg = j.str("harness_msg"); }
 			if (j.has("sample") && a.samples.size() < 4) a.samples.push_back(j.at("sample"));
 			for (auto& v : j.at("viol").a) {
@@ -411,6 +417,10 @@ static int do_check(const std::string& prop, int tier, uint64_t base_seed, int j
 
 	printf("check %s tier=%s runs=%llu cases=%llu commands=%llu distinct_nontrivial=%llu interleavings=%zu violations=%d cross=%zu wall=%.1fs\n", prop.c_str(), tier ? "thorough" : "quick",
 		(unsigned long long)a.runs, (unsigned long long)a.cases, (unsigned long long)a.commands, (unsigned long long)distinct_nt, a.interleavings.size(), violations, a.cross.size(), wall);
+	if (getenv("SNAPSIM_PROBES")) {
+		for (auto& kv : a.probes) printf("  probe %s=%llu\n", kv.first.c_str(), (unsigned long long)kv.second);
+		for (auto& kv : a.faults) printf("  fault %s=%llu\n", kv.first.c_str(), (unsigned long long)kv.second);
+	}
 	if (!a.own_viol.empty()) {
 		std::map<std::string, int> cc;
 		std::map<std::string, std::string> ex;
@@ -467,6 +477,15 @@ static int do_run(const std::string& family, uint64_t index, int tier, uint64_t 
 	if (verbose) printf("%s\n", p.to_json().dump(1).c_str());
 	double t0 = now_wall();
 	RunOutcome o = execute_plan(p, g_shm + "/run");
+	if (getenv("SNAPSIM_CMDDIGEST")) {
+		RunOutcome o2 = execute_plan(p, g_shm + "/run");
+		for (size_t i = 0; i < o.cmd_digests.size() && i < o2.cmd_digests.size(); ++i)
+			if (o.cmd_digests[i] != o2.cmd_digests[i]) {
+				printf("first differing command #%zu:\n--- first\n%s\n--- second\n%s\n", i, o.cmd_lines[i].c_str(), o2.cmd_lines[i].c_str());
+				break;
+			}
+		printf("in-process twice: %s\n", o.digest == o2.digest ? "same" : "DIFFERENT");
+	}
 	printf("run %s #%llu seed=%llu ops=%zu commands=%llu cases=%llu nontrivial=%d digest=%016llx wall=%.3f\n", family.c_str(), (unsigned long long)index, (unsigned long long)seed, p.ops.size(),
 		(unsigned long long)o.commands, (unsigned long long)o.cases, (int)o.nontrivial, (unsigned long long)o.digest, now_wall() - t0);
 	for (auto& kv : o.probes) printf("  probe %s=%llu\n", kv.first.c_str(), (unsigned long long)kv.second);
@@ -511,6 +530,29 @@ static int do_selfcheck(int n, int jobs, uint64_t base)
 	return bad ? 2 : 0;
 }
 
+// debugging aid: execute runs start, start+step, ... <= end in ONE process, each twice, and show the first differing command
+static int do_seq(const std::string& family, uint64_t start, uint64_t step, uint64_t end, int tier, uint64_t base)
+{
+	const Family* f = find_family(family);
+	if (!f) return 2;
+	setenv("SNAPSIM_CMDDIGEST", "1", 1);
+	for (uint64_t i = start; i <= end; i += step) {
+		RunPlan p = f->gen(run_seed_of(base, family, i), tier);
+		RunOutcome o = execute_plan(p, g_shm + "/seq");
+		RunOutcome o2 = execute_plan(p, g_shm + "/seq");
+		printf("#%llu %s\n", (unsigned long long)i, o.digest == o2.digest ? "same" : "DIFFERENT");
+		if (o.digest != o2.digest) {
+			for (size_t k = 0; k < o.cmd_digests.size() && k < o2.cmd_digests.size(); ++k)
+				if (o.cmd_digests[k] != o2.cmd_digests[k]) {
+					printf("first differing command #%zu:\n--- first\n%s\n--- second\n%s\n", k, o.cmd_lines[k].c_str(), o2.cmd_lines[k].c_str());
+					break;
+				}
+			return 1;
+		}
+	}
+	return 0;
+}
+
 static void cleanup_shm()
 {
 	if (!g_shm.empty()) rm_rf(g_shm);
@@ -547,6 +589,7 @@ int main(int argc, char** argv)
 	if (args.size() >= 2 && args[0] == "check") rc = do_check(args[1], tier, seed, jobs, atoi(opt("--runs", "0").c_str()), opt("--family", ""));
 	else if (args.size() >= 2 && args[0] == "replay") rc = do_replay(args[1]);
 	else if (args.size() >= 3 && args[0] == "run") rc = do_run(args[1], strtoull(args[2].c_str(), 0, 10), tier, seed, flag("-v"));
+	else if (args.size() >= 5 && args[0] == "seq") rc = do_seq(args[1], strtoull(args[2].c_str(), 0, 10), strtoull(args[3].c_str(), 0, 10), strtoull(args[4].c_str(), 0, 10), tier, seed);
 	else if (args.size() >= 1 && args[0] == "selfcheck") rc = do_selfcheck(atoi(opt("--n", "400").c_str()), jobs, seed);
 	else if (args.size() >= 1 && args[0] == "list") { for (auto& f : families()) printf("%s %s\n", f.name.c_str(), f.prop.c_str()); rc = 0; }
 	else fprintf(stderr, "usage: snapsim check <prop> [--tier t] [--seed n] [--jobs n] [--runs n] [--family f] | replay <file> | run <family> <index> [-v] | selfcheck | list\n");
